@@ -1,8 +1,10 @@
-(* C15 - Fresh variables are distinct and renaming-invariant (partial: alpha-invariance is proved
+(* C15 - Fresh variables are distinct and renaming-invariant (distinctness is proved for whole
+   executions, see the scoping theorems at the end; partial: alpha-invariance is proved
    for term construction under one binder; whole-program alpha-invariance is checked by compiling
    every generated program as written and renamed apart). *)
 From Coq Require Import List ZArith Bool Arith.
-From PV Require Import Model.Term Model.Subst Model.Unify Model.FD Model.State Model.Engine Proofs.ElabProofs.
+From PV Require Import Model.Term Model.Subst Model.Unify Model.FD Model.State Model.Engine Proofs.ElabProofs
+  Proofs.ElabAll Proofs.KeyStream Proofs.ScopeElab Proofs.ScopeState Proofs.ScopeStream.
 Import ListNotations.
 
 (* the variables a fresh block / pattern arm / query introduces: one per name, pairwise distinct,
@@ -39,6 +41,69 @@ Theorem C15_alpha_term : forall x y v t rho n,
   ~ In y (names_of t) -> elab_term ((y, v) :: rho) (rename x y t) n = elab_term ((x, v) :: rho) t n.
 Proof. intros x y v. exact (proj1 (elab_term_rename x y v)). Qed.
 
+(* ---------------------------------------------------------------- scoping of whole executions *)
+(* tb n t : every variable of t is below n; envb n rho : every term of the environment is;
+   gbb n g : every term inside the goal object g (operands, environments of closures / for / project,
+   arguments of relation calls, constraint operands) is below n, and g has no reification step;
+   stb st : every variable identity in st - keys and terms of the substitution, every stored
+   constraint, every domain owner - is below st's counter.
+   okS m s : every state in the stream s is stb, has a counter >= m, and every goal still pending in s
+   is scoped for (the lower bound of) the states it will be run in. *)
+
+(* goal construction never invents a variable: from a scoped environment everything it builds is
+   scoped at the counter it returns, which only grows; the variables it draws lie in between *)
+Theorem C15_elab_scoped : forall defs f k rho g n, envb n rho ->
+  n <= snd (elab defs f k rho g n) /\ gb (snd (elab defs f k rho g n)) (fst (elab defs f k rho g n)).
+Proof. exact elab_scope. Qed.
+
+(* the four state operations never invent a variable and do not move the counter *)
+Theorem C15_ops_scoped : forall st, stb st ->
+  (forall u v, tb (st_nextv st) u -> tb (st_nextv st) v -> sresB st (state_unify st u v)) /\
+  (forall u v, tb (st_nextv st) u -> tb (st_nextv st) v -> sresB st (state_disunify st u v)) /\
+  (forall x d, tb (st_nextv st) x -> sresB st (post_domain x d st)) /\
+  (forall c, cb (st_nextv st) c -> sresB st (post_constraint c st)).
+Proof.
+  intros st H. repeat split; intros.
+  - apply state_unify_B; assumption.
+  - apply state_disunify_B; assumption.
+  - apply post_domain_B; assumption.
+  - apply post_constraint_B; assumption.
+Qed.
+
+(* for every program, relation definitions, search strategy and fuel: started in a scoped state on
+   a scoped goal, every state of every stream is scoped and every pending goal is scoped for the
+   states it will meet; so is every delivered answer and the rest of the stream *)
+Theorem C15_scoped_everywhere : forall defs n g st,
+  stb st -> gbb (st_nextv st) g -> okS (st_nextv st) (start defs n g st).
+Proof. exact start_ok. Qed.
+Theorem C15_scoped_answers : forall defs k used s a rest used' m,
+  okS m s -> next defs k used s = NAnswer a rest used' -> stb a /\ okS m rest.
+Proof. exact next_ok. Qed.
+Theorem C15_initial_scoped : forall n, stb (empty_state n).
+Proof. exact stb_empty. Qed.
+
+(* hence: the variables a fresh block (or a pattern, a closure body, a relation body unfolded again,
+   recursively or not) introduces when it is reached in a state st are different from every
+   variable of st's substitution, stored constraints and domains, and from every variable of the
+   environment it extends *)
+Theorem C15_fresh_not_elsewhere : forall st xs rho rho' n',
+  stb st -> envb (st_nextv st) rho -> bind_fresh xs rho (st_nextv st) = (rho', n') ->
+  exists new, rho' = new ++ rho /\
+    forall x t, In (x, t) new -> exists i, t = TVar i false /\
+      (forall y u, In (y, u) (st_smap st) -> i <> y /\ ~ In i (tvars u)) /\
+      (forall y d, In (y, d) (st_dstore st) -> i <> y) /\
+      (forall y u, In (y, u) rho -> ~ In i (tvars u)).
+Proof.
+  intros st xs rho rho' n' [Hs [Hc Hd]] He Hb.
+  destruct (bind_fresh_distinct _ _ _ _ _ Hb) as [new [E [_ [_ Hnew]]]]. exists new. split; [exact E|].
+  intros x t Hin. destruct (Hnew t) as [i [-> Hi]]; [apply in_map_iff; exists (x, t); auto|]. exists i. split; [reflexivity|].
+  repeat split.
+  - destruct (Hs y u H). Lia.lia.
+  - intros Hi2. destruct (Hs y u H) as [_ Hu]. specialize (Hu i Hi2). Lia.lia.
+  - intros y d Hy. specialize (Hd y d Hy). Lia.lia.
+  - intros y u Hy Hi2. specialize (He y u Hy i Hi2). Lia.lia.
+Qed.
+
 Check C15_fresh_distinct : forall xs rho n rho' n',
   bind_fresh xs rho n = (rho', n') ->
   exists new, rho' = new ++ rho /\ length new = length xs /\
@@ -49,3 +114,9 @@ Print Assumptions C15_counter_monotone.
 Print Assumptions C15_closure_refreshes.
 Print Assumptions C15_only_free_names.
 Print Assumptions C15_alpha_term.
+Print Assumptions C15_elab_scoped.
+Print Assumptions C15_ops_scoped.
+Print Assumptions C15_scoped_everywhere.
+Print Assumptions C15_scoped_answers.
+Print Assumptions C15_initial_scoped.
+Print Assumptions C15_fresh_not_elsewhere.
